@@ -253,6 +253,48 @@ def tt3_rw(sx, code, nserv, nblk, tail):
     return tt3_result(sx, entry, rsp)
 
 
+SERVICE_LISTS = [[0x0009], [0x000B], [0x0009, 0x000B], [0x000B, 0x1234]]
+
+
+def tt3_blocks(sx, code, n, forms, data):
+    """well-formed READ (06h) / WRITE (08h) WITHOUT ENCRYPTION for the
+    emulation's IDm: service list drawn from registered / unregistered codes,
+    block list of n elements in 2 byte or 3 byte form (pattern `forms`), every
+    block number symbolically inside or outside the tag memory (the service
+    handlers accept the former and reject the latter), the service list order nibble symbolic at
+    the first, ninth and last element; writes carry n*16 data octets ('full'),
+    one octet less ('odd'), one block less ('short') or none"""
+    sim, emu = tt3_emulation(sx)
+    services = sx.pick("services", SERVICE_LISTS)
+    form = sx.pick("forms", forms)
+    body = [code] + IDM + [len(services)]
+    for sc in services:
+        body += [sc & 255, sc >> 8]
+    body.append(n)
+    for i in range(n):
+        two = form == "2" or (form == "mixed" and i % 3 != 2)
+        order = sx.int("e%d.order" % i, 0, 15) if i in (0, 8, n - 1) else i % len(services)
+        head = (0x80 if two else 0x00) | order
+        # block number: symbolically inside (block i mod 6) or outside the
+        # tag memory (the handlers turn an accepted number into slice bounds)
+        low = sx.ite(sx.flag("e%d.inside" % i), i % 6, 0xC8)
+        if two:
+            body += [head, low]
+        else:
+            body += [head, low, sx.ite(sx.flag("e%d.high" % i), 1, 0)]
+    if code == 8:
+        kind = sx.pick("data", data)
+        size = dict(full=16 * n, odd=16 * n - 1, short=16 * (n - 1), none=0)[kind]
+        if len(body) + 1 + size > 255:
+            size = 16 * ((254 - len(body)) // 16)   # as much as a frame can carry
+        body += [(0xA0 + 3 * j) & 255 for j in range(size)]
+    cmd = sx.mkbytes([len(body) + 1] + body, True)
+    entry = "tt3.process_command"
+    st, rsp = guarded(sx, entry, (), emu.process_command, cmd)
+    sx.reach("tt3:block-list-%s" % ("answered" if rsp is not None else "ignored"))
+    return tt3_result(sx, entry, rsp)
+
+
 def tt3_dialog(sx, lens):
     """the command loop of connect(card=...): first command as delivered by
     listen() (tag.cmd), then send_response() returns the next command"""
@@ -1220,6 +1262,14 @@ def partitions(tier):
                 continue
             add("tt3-rw:%02x:%d:%d:%d" % (code, nserv, nblk, tail), "tt3_rw",
                 code=code, nserv=nserv, nblk=nblk, tail=tail)
+    for code in (6, 8):
+        for n in (1, 8, 9, 12, 15, 16):
+            for forms in (["2"], ["3", "mixed"]):
+                if code == 8 and (16 + 3 * n if forms != ["2"] else 16 + 2 * n) > 254:
+                    continue
+                add("tt3-blocks:%02x:%d:%s" % (code, n, forms[0]), "tt3_blocks", code=code, n=n,
+                    forms=forms, data=["full", "odd", "short", "none"] if n > 1 else
+                    ["full", "odd", "none"])
     add("tt3-dialog", "tt3_dialog", lens=[[6, 6], [6, 0], [6, 1], [10, 10], [6, 3, 6]])
     return P
 
@@ -1237,7 +1287,8 @@ MUST_REACH = ["pdu:decode-error", "pdu:decoded", "pdu:nested-agf-done",
               "handover:server-returned", "connect:llcp-link-ran", "connect:llcp-no-link",
               "connect:llcp-acm-link-ran", "connect:llcp-acm-no-link",
               "connect:card-returned",
-              "tt3:ignored", "tt3:answered", "tt3:dialog-ended"]
+              "tt3:ignored", "tt3:answered", "tt3:dialog-ended",
+              "tt3:block-list-answered", "tt3:block-list-ignored"]
 LIMITS = {"quick": dict(witness_cap=30), "thorough": dict(witness_cap=120)}
 BOUNDS = {
     "quick": "pdu.decode (+str/len of the result): every byte string of 0..6 octets; aggregates "
@@ -1261,7 +1312,12 @@ BOUNDS = {
     "aggregate of 2/60/543 levels, then two SYMM and silence. Type 3 Tag emulation: every "
     "command of 0..6 octets, every command code 04/06/08/0C/0A with the emulation's IDm + "
     "0..4 symbolic octets, read/write with 1-2 symbolic service codes, block count from "
-    "{0,1,2,3,15,16,255}, 0..5 block list octets, up to 32 data octets; command dialogs via "
+    "{0,1,2,3,15,16,255}, 0..5 block list octets, up to 32 data octets; well-formed read/"
+    "write commands with 4 service lists (registered / unregistered codes) and block lists "
+    "of 1, 8, 9, 12, 15, 16 elements in 2 byte / 3 byte / mixed form, every block number "
+    "symbolically inside / outside the tag memory, service list order nibble symbolic at the first, ninth and last element, "
+    "write data complete / one octet short / one block short / absent (at most what a 255 "
+    "octet frame carries); command dialogs via "
     "send_response. SNEP server _serve: 13 fragment sequences (0..11 octets, up to 3 "
     "fragments, all octets symbolic), MIU 128 / 6, NDEF decoding outcome drawn per call; "
     "SNEP client put/get with 10 response fragment sequences, server closing or silent; "
